@@ -193,8 +193,11 @@ def check_C02(ctx):
     jobs += e1_jobs(ctx, "C02", ["S13-get-vs-reupload-other-format"], 3 if th else 2, 2 if th else 1, 1200 if th else 300)
     for cfg in CONFIGS:
         jobs.append(Job(b, "TestC02BatchLists", name="C02:batchlists/" + cfg, timeout=2400, env={"VERIF_PARAM_CONFIG": cfg, "GOMAXPROCS": "4"}))
+    # readers must not share a zstd encoder / decoder: pool hygiene after every class of request outcome
+    for mode in ("zstd", "uncompressed"):
+        jobs.append(Job(b, "TestC07Pools", name="C02:pools/" + mode, timeout=1200, env={"VERIF_PARAM_MODE": mode, "VERIF_PARAM_PROPERTY": "C02"}))
     return dict(level="exploration", jobs=jobs,
-                rule="(i) full product writer (mode,impl) x reader (mode,impl, restarted) x blob size on 4 KiB / k MiB edges x content kind x read path x offset class x read_limit class; (ii) files laid out by the independent format writer with 4/8 KiB chunks: every offset 0..n on both ByteStream paths; (iii) the empty blob on every path against an empty cache; multi-digest BatchReadBlobs: every sequence up to length 3 (4 thorough) over {present, second present (1 MiB+3), absent, empty blob, present hash with size+1, previous again}: every response right for the digest it names, every digest answered as often as asked; E1 scenario S13 (blob written under the other storage mode in an earlier life of the directory, Get and zstd Get at offset 1 against a re-upload, all schedules up to the preemption bound); two readers alive at once: every order of {open A, open B, drain A, drain B}, plain/zstd, unaligned offsets; non-trivial = distinct successful reads whose bytes were compared",
+                rule="pool hygiene (one P, GC off): after every class of upload / download outcome in both storage modes the process-wide zstd encoder and decoder pools hold no object twice (two later readers would share it); (i) full product writer (mode,impl) x reader (mode,impl, restarted) x blob size on 4 KiB / k MiB edges x content kind x read path x offset class x read_limit class; (ii) files laid out by the independent format writer with 4/8 KiB chunks: every offset 0..n on both ByteStream paths; (iii) the empty blob on every path against an empty cache; multi-digest BatchReadBlobs: every sequence up to length 3 (4 thorough) over {present, second present (1 MiB+3), absent, empty blob, present hash with size+1, previous again}: every response right for the digest it names, every digest answered as often as asked; E1 scenario S13 (blob written under the other storage mode in an earlier life of the directory, Get and zstd Get at offset 1 against a re-upload, all schedules up to the preemption bound); two readers alive at once: every order of {open A, open B, drain A, drain B}, plain/zstd, unaligned offsets; non-trivial = distinct successful reads whose bytes were compared",
                 assumptions=["zstd responses are decoded with klauspost/compress and libzstd; both must agree",
                              "in-process servers (httptest recorder / bufconn)",
                              "contents: pseudo-random, zeros, repetitive text; sizes are boundary-chosen"])
@@ -312,10 +315,10 @@ def check_C14(ctx):
     g = ctx.bin(GRID)
     jobs = []
     for mode in ("zstd", "uncompressed"):
-        for part in ("digests", "names", "http", "writes", "space", "aborts", "origin", "files"):
+        for part in ("digests", "names", "http", "writes", "space", "aborts", "backend-aborts", "origin", "files"):
             jobs.append(Job(g, "TestC14", name="C14:%s/%s" % (part, mode), timeout=2400, env={"VERIF_PARAM_MODE": mode, "VERIF_PARAM_PART": part, "GOMAXPROCS": "4"}))
     return dict(level="exploration", jobs=jobs,
-                rule="small-scope structural enumeration through the real handlers: 12 digest shapes (nil, empty, present, absent, empty blob, negative / huge size, four malformed hashes, zero size with a hash) at every digest position of every gRPC request type (pairs for SpliceBlob), FetchBlob uri x qualifier shapes, stored blobs (9 Directory, 5 Tree, 4 ActionResult shapes incl. nil digests and garbage) read back through GetTree / GetActionResult / HTTP; all token sequences up to length 4 (5 thorough) over 14 resource-name tokens for ByteStream.Read (x offsets, limits), Write and QueryWriteStatus; 21 URL paths x 9 HTTP methods; PUT header products (size header x encoding x content type x content length); all ByteStream.Write message sequences up to length 3 over 9 message kinds with a client abort after every prefix; uploads refused for lack of space through every write path (larger than max_size / space held by other requests' reservations / SpliceBlob whose chunks fit but whose result does not) x hard limit on/off with the leak oracle after every cell; downloads the client abandons (ByteStream.Read identity/zstd at offsets 0 and 1, HTTP GET plain/zstd over a real connection; one-chunk and multi-chunk blobs; before / after the first piece) with the garbage collector off, so a file closed only by its finalizer counts as left behind; FetchBlob against an origin answering 200/403/404/500/503 x {no body, 10 B, 100 KiB} x {Content-Length, chunked} x checksum qualifier {none, matching, other}: after each cell the origin holds no connection the cache has not given back; ill-formed cas.v2 files in the directory (19 header damages: chunk size, logical size, offset count, offsets, compression type, truncations, garbage chunk data) read through 6 read paths at offsets 0, 1, 1 MiB, 1 MiB+1, n-1 plus FindMissingBlobs; Write streams ending with finish_write that the client does not half-close; non-trivial = distinct cells that completed",
+                rule="small-scope structural enumeration through the real handlers: 12 digest shapes (nil, empty, present, absent, empty blob, negative / huge size, four malformed hashes, zero size with a hash) at every digest position of every gRPC request type (pairs for SpliceBlob), FetchBlob uri x qualifier shapes, stored blobs (9 Directory, 5 Tree, 4 ActionResult shapes incl. nil digests and garbage) read back through GetTree / GetActionResult / HTTP; all token sequences up to length 4 (5 thorough) over 14 resource-name tokens for ByteStream.Read (x offsets, limits), Write and QueryWriteStatus; 21 URL paths x 9 HTTP methods; PUT header products (size header x encoding x content type x content length); all ByteStream.Write message sequences up to length 3 over 9 message kinds with a client abort after every prefix; uploads refused for lack of space through every write path (larger than max_size / space held by other requests' reservations / SpliceBlob whose chunks fit but whose result does not) x hard limit on/off with the leak oracle after every cell; downloads the client abandons (ByteStream.Read identity/zstd at offsets 0 and 1, HTTP GET plain/zstd over a real connection; one-chunk and multi-chunk blobs; before / after the first piece) with the garbage collector off, so a file closed only by its finalizer counts as left behind; FetchBlob against an origin answering 200/403/404/500/503 x {no body, 10 B, 100 KiB} x {Content-Length, chunked} x checksum qualifier {none, matching, other}: after each cell the origin holds no connection the cache has not given back; ill-formed cas.v2 files in the directory (19 header damages: chunk size, logical size, offset count, offsets, compression type, truncations, garbage chunk data) read through 6 read paths at offsets 0, 1, 1 MiB, 1 MiB+1, n-1 plus FindMissingBlobs; Write streams ending with finish_write that the client does not half-close; requests that need a slow backend and that the client gives up on (BatchReadBlobs / ByteStream.Read / GetActionResult / FindMissingBlobs / GetTree x 4 blobs of 1000 B / 300 KiB x held by the backend or not x three patience values): nothing stays reserved, no goroutine left; non-trivial = distinct cells that completed",
                 assumptions=["bounded-exhaustive over message shapes and token sequences (small-scope hypothesis), not byte-level fuzzing",
                              "gRPC handler panics are caught by the harness's interceptor and reported (the real server has no recovery: a panic there terminates the process)",
                              "leaks: goroutines inside repository request code, reserved bytes, directory==index and open descriptors are compared with the baseline every 64 cells and at the end; waits are by state with a 20 s cap"])
